@@ -360,6 +360,13 @@ def gen_topology(rng, *, n_sites=None, max_sites=5, max_spans=3, whole_km=False,
                         after_fused = False
                         chain.append(gen_edfa(rng, f'amp ({src} → {dst})-{j}', varieties=amp_varieties))
                         info['junctions'].append('edfa:' + chain[-1]['_settings'])
+                        if fused and rng.random() < 0.15:
+                            # a fused element (patch panel, splice box) right after the amplifier: the span starts
+                            # with it
+                            after_fused = True
+                            chain.append({'uid': f'fused after amp ({src} → {dst})-{j}', 'type': 'Fused',
+                                          'params': {'loss': pick(rng, [0, 0.5, 1.0])}, 'metadata': _loc(0, 0)})
+                            info['junctions'].append('fused-after-amp')
                     else:
                         after_fused = False
                         info['junctions'].append('none')
